@@ -7,7 +7,7 @@
    blst / chia-pos2 questions for the byte strings that occur in the case. *)
 From Coq Require Import String.
 From ChiaV.Base Require Import Bytes Sha256.
-From ChiaV.Stream Require Import Universe ClvmLen Versioned Codec ValText.
+From ChiaV.Stream Require Import Universe ClvmLen Versioned Codec ValText Total Json JsonText.
 From ChiaV.Gen Require Import StreamTypes.
 From ChiaV.Run Require Import RunBase.
 Open Scope N_scope.
@@ -107,6 +107,98 @@ Fixpoint collect (t : ty) (v : value) {struct t} : list bytes :=
   | _ => []
   end.
 
+(* ---------- which BLS windows does a parse look at, even when it fails later ---------- *)
+(* `skip t bs log` walks bs as a t under the accept-everything oracle and logs every 48/96-byte
+   window handed to blst; it returns the unread rest (None when the walk fails).  Only control
+   flow matters, so sub-types without BLS leaves are skipped with `decode ora_all`. *)
+Section HasBls.
+  Variable p : ty -> bool.
+  Fixpoint any_ty (ts : list ty) : bool := match ts with [] => false | t :: r => p t || any_ty r end.
+  Fixpoint any_field (fs : list (string * ty)) : bool := match fs with [] => false | f :: r => p (snd f) || any_field r end.
+End HasBls.
+Fixpoint has_bls (t : ty) : bool :=
+  match t with
+  | G1 | G2 | PoS => true
+  | Opt a | Vec a | Arr _ a => has_bls a
+  | Tup ts => any_ty has_bls ts
+  | Struct _ _ fs => any_field has_bls fs
+  | Opt2 a b => has_bls a || has_bls b
+  | _ => false
+  end.
+
+Definition sres := (list bytes * option bytes)%type.
+Definition sbind (x : sres) (k : list bytes -> bytes -> sres) : sres :=
+  match x with (log, Some r) => k log r | (log, None) => (log, None) end.
+
+Definition skip_window (k : byte) (n : nat) (bs : bytes) (log : list bytes) : sres :=
+  match read_bytes n bs with Some (b, r) => (q_entry k b :: log, Some r) | None => (log, None) end.
+
+Section SkipLoops.
+  Variable sk1 : bytes -> list bytes -> sres.
+  Fixpoint skip_rep (n : nat) (bs : bytes) (log : list bytes) : sres :=
+    match n with O => (log, Some bs) | S k => sbind (sk1 bs log) (fun log' r => skip_rep k r log') end.
+End SkipLoops.
+Section SkipSeqs.
+  Variable sk : ty -> bytes -> list bytes -> sres.
+  Fixpoint skip_seq (ts : list ty) (bs : bytes) (log : list bytes) : sres :=
+    match ts with [] => (log, Some bs) | t :: r => sbind (sk t bs log) (fun log' rest => skip_seq r rest log') end.
+  Fixpoint skip_fields (fs : list (string * ty)) (bs : bytes) (log : list bytes) : sres :=
+    match fs with [] => (log, Some bs) | f :: r => sbind (sk (snd f) bs log) (fun log' rest => skip_fields r rest log') end.
+End SkipSeqs.
+
+Definition skip_pos (bs : bytes) (log : list bytes) : sres :=
+  match read_bytes 33 bs with
+  | None => (log, None)
+  | Some (h, r) =>
+      sbind (match nth 32 h x00 with
+             | x00 => (log, Some r)
+             | x01 => skip_window x61 48 r log
+             | _ => (log, None)
+             end) (fun log r =>
+      match r with
+      | [] => (log, None)
+      | p :: r1 =>
+          match (if N.land (b2n p) 1 =? 1 then option_map snd (read_bytes 32 r1) else Some r1) with
+          | None => (log, None)
+          | Some r2 =>
+              sbind (skip_window x61 48 r2 log) (fun log r3 =>
+                (* the tail (size/plot params, proof) holds no BLS data: finish with the real decoder *)
+                (log, match decode ora_all true PoS bs with Some (_, rest) => Some rest | None => None end))
+          end
+      end)
+  end.
+
+Fixpoint skip (t : ty) (bs : bytes) (log : list bytes) {struct t} : sres :=
+  if negb (has_bls t) then (log, option_map snd (decode ora_all true t bs))
+  else match t with
+  | G1 => skip_window x61 48 bs log
+  | G2 => skip_window x62 96 bs log
+  | PoS => skip_pos bs log
+  | Opt a =>
+      match bs with
+      | x00 :: r => (log, Some r)
+      | x01 :: r => skip a r log
+      | _ => (log, None)
+      end
+  | Vec a =>
+      match dec_u_n 4 bs with
+      | None => (log, None)
+      | Some (n, r) => skip_rep (skip a) (N.to_nat (N.min n (nlen r + 1))) r log
+      end
+  | Arr n a => skip_rep (skip a) n bs log
+  | Tup ts => skip_seq skip ts bs log
+  | Struct _ _ fs => skip_fields skip fs bs log
+  | Opt2 a b =>
+      match bs with
+      | x00 :: r => (log, Some r)
+      | x01 :: r => skip a r log
+      | x02 :: r => skip b r log
+      | x03 :: r => sbind (skip a r log) (fun log' r' => skip b r' log')
+      | _ => (log, None)
+      end
+  | _ => (log, option_map snd (decode ora_all true t bs))
+  end.
+
 (* ---------- type table ---------- *)
 Fixpoint find_type (name : bytes) (l : list (string * ty)) : option ty :=
   match l with
@@ -130,7 +222,12 @@ Definition h_need (args : list bytes) : bytes :=
         if byte_eqb m x62 then
           match decode ora_all true t (hx (arg 2 args)) with
           | Some (v, _) => joinc (collect t v)
-          | None => [x2d]
+          | None => joinc (fst (skip t (hx (arg 2 args)) []))
+          end
+        else if byte_eqb m x6a then                               (* j: a JSON text *)
+          match jparse_all (arg 2 args) with
+          | Some j => match from_json ora_all t j with Some v => joinc (collect t v) | None => [x2d] end
+          | None => str "ERR-JSON-SYNTAX"
           end
         else match parse_value (arg 2 args) with
              | Some v => joinc (collect t v)
@@ -183,11 +280,61 @@ Definition h_enc (args : list bytes) : bytes :=
                 str "RT:" ++ rt_flag O true t v e ]
     end).
 
+(* tot T TRUSTED HEX ORA : C14 observables of the instrumented decoder *)
+Definition h_tot (args : list bytes) : bytes :=
+  with_type (arg 0 args) (fun t =>
+    let tr := N.eqb (dec (arg 1 args)) 1 in
+    let bs := hx (arg 2 args) in
+    let O := ora_of (parse_ora (arg 3 args)) in
+    let d := tdecode O tr t bs 0 in
+    let ds := match d with
+              | TOk _ r _ => str "ok:" ++ to_dec (nlen bs - nlen r)
+              | TErr _ => str "err"
+              | TPanic => str "PANIC"
+              end in
+    let fs := match t_from_bytes O tr t bs with FOk _ _ => str "ok" | FErr _ => str "err" | FPanic => str "PANIC" end in
+    let ops := match d with
+               | TOk v _ _ =>
+                   (match encode t v with Some _ => str "o" | None => str "e" end)
+                   ++ (match digest O t v with DOk _ => str "o" | DPanic => str "P" end) ++ str "oo"
+               | _ => [x2d]
+               end in
+    let al := match d with TOk _ _ a => a | TErr a => a | TPanic => 0 end in
+    words [ str "D:" ++ ds; str "F:" ++ fs; str "OPS:" ++ ops; str "A:" ++ to_dec al;
+            str "BOUND:" ++ to_dec (alloc_bound t (nlen bs));
+            str "K:" ++ match d with TOk v _ _ => boolo (has_bad_pos O t v) | _ => [x2d] end ]).
+
+(* sizes : mem_size of every type of the table *)
+Definition h_sizes (_ : list bytes) : bytes :=
+  join [comma] (map (fun p => str (fst p) ++ colon :: to_dec (mem_size (snd p))) stream_types).
+
+(* tojson T VALTEXT *)
+Definition h_tojson (args : list bytes) : bytes :=
+  with_type (arg 0 args) (fun t =>
+    match parse_value (arg 1 args) with
+    | None => str "ERR-VALUE-SYNTAX"
+    | Some v => match to_json t v with Some j => jrender j | None => err end
+    end).
+
+(* fromjson T JSONTEXT ORA *)
+Definition h_fromjson (args : list bytes) : bytes :=
+  with_type (arg 0 args) (fun t =>
+    match jparse_all (arg 1 args) with
+    | None => str "ERR-JSON-SYNTAX"
+    | Some j => opt_val (from_json (ora_of (parse_ora (arg 2 args))) t j)
+    end).
+
+(* jsonok : the side condition of the JSON round trip theorem, per type *)
+Definition h_jsonok (_ : list bytes) : bytes :=
+  join [comma] (map (fun p => str (fst p) ++ colon :: boolo (json_ok (snd p))) stream_types).
+
 (* types: the list of type names, so that the driver enumerates exactly the model's table *)
 Definition h_types (_ : list bytes) : bytes := join [comma] (map (fun p => str (fst p)) stream_types).
 
 Definition wire_handlers : list (bytes * handler) :=
-  [ (str "wire.need", h_need); (str "wire.rt", h_rt); (str "wire.enc", h_enc); (str "wire.types", h_types) ].
+  [ (str "wire.need", h_need); (str "wire.rt", h_rt); (str "wire.enc", h_enc); (str "wire.types", h_types);
+    (str "wire.tot", h_tot); (str "wire.sizes", h_sizes);
+    (str "wire.tojson", h_tojson); (str "wire.fromjson", h_fromjson); (str "wire.jsonok", h_jsonok) ].
 
 Definition dispatch_n (line : list N) : list N :=
   map b2n (dispatch_table wire_handlers (map n2b line)).
